@@ -89,7 +89,8 @@ CHECKS["C09"] = dict(
     level_note="Histories that straddle the expiry of a tombstone are judged by the step rule only (order dependence after tombstone expiry is inherent to the design and not demanded by the statement). 'eventually effective on every connected instance' is decided on the mesh fixture (C19).",
     assumptions=E1_ASSUME,
     units=[dict(pkg="silence", test="TestVerifC09", shards_quick=16, shards_thorough=16, budget_quick=90, budget_thorough=1200),
-           dict(pkg="silence", test="TestVerifC09Limits", shards_quick=1, shards_thorough=1, budget_quick=60, budget_thorough=300)],
+           dict(pkg="silence", test="TestVerifC09Limits", shards_quick=1, shards_thorough=1, budget_quick=60, budget_thorough=300),
+           dict(pkg="silence", test="TestVerifC09Batches", shards_quick=1, shards_thorough=1, budget_quick=60, budget_thorough=300)],
 )
 
 CHECKS["C10"] = dict(
@@ -101,6 +102,7 @@ CHECKS["C10"] = dict(
     level_note="Timestamp ties are not generated (the statement does not order them). A message never carries two entries of one key (neither a broadcast nor a full state does).",
     assumptions=E1_ASSUME + E2_ASSUME,
     units=[dict(pkg="nflog", test="TestVerifC10", gomaxprocs=1, shards_quick=16, shards_thorough=16, budget_quick=90, budget_thorough=1200),
+           dict(pkg="nflog", test="TestVerifC10Batches", shards_quick=1, shards_thorough=1, budget_quick=60, budget_thorough=300),
            dict(pkg="nflog", test="TestVerifRaceNflog", race=True, shards=1, budget_quick=30, budget_thorough=120)],
 )
 
